@@ -2379,10 +2379,13 @@ impl PeerConnection {
             // Wait for a state transition instead of re-polling the completed
             // JoinHandle, which would panic.
             if dtls_runner_done {
-                if state_rx.changed().await.is_err() {
-                    break;
-                }
-                continue;
+                // Only the runner publishes DTLS states. It has ended without
+                // reaching Connected/Failed/Closed (e.g. `close()` during the
+                // handshake), so no transition can follow: fail the start
+                // instead of waiting forever with the connection held alive.
+                return Err(RtcError::Internal(
+                    "DTLS runner ended before the handshake completed".into(),
+                ));
             }
 
             tokio::select! {
